@@ -56,6 +56,14 @@ def build(desc):
         A = (U * eig.real) @ U.conj().T
         A = 0.5 * (A + A.conj().T)
         v = U @ coef
+        if desc.get('real_start'):
+            # real-dtype start vector for a complex Hermitian map: generic overlap with every eigenspace
+            v = rng.normal(size=n)
+            proj = np.array([np.linalg.norm(U[:, owner == j].conj().T @ v) for j in range(nd)])
+            k = int(np.sum(proj > 1e-12))
+            reach = np.array([lam[j] for j in range(nd) if proj[j] > 1e-12])
+            if proj.min() < 0.05 * proj.max():
+                k = -1     # Krylov dimension numerically fuzzy: callers skip the case
     else:
         # well conditioned similarity: S = U1 diag(1..c) U2, cond <= 10
         X1 = rng.normal(size=(n, n)) + 1j * rng.normal(size=(n, n))
@@ -102,7 +110,10 @@ def krylov_desc(draw, nmax=14, kinds=('herm_real', 'herm_complex'), extra_m=3):
         if not any(support):
             support[0] = 1
     n = sum(mults)
-    kd = sum(support)
+    kind = draw(st.sampled_from(list(kinds)))
+    real_start = bool(kind == 'herm_complex' and draw(st.sampled_from(range(4))) == 3)
+    # a real start vector for a complex Hermitian map overlaps every eigenspace: k = number of distinct eigenvalues
+    kd = nd if real_start else sum(support)
     rel = draw(st.sampled_from(['below', 'below', 'at', 'above', 'any']))
     if rel == 'below' and kd >= 2:
         m = draw(st.sampled_from(list(range(1, kd))))
@@ -112,6 +123,6 @@ def krylov_desc(draw, nmax=14, kinds=('herm_real', 'herm_complex'), extra_m=3):
         m = draw(st.sampled_from(list(range(kd + 1, n + extra_m + 1))))
     else:
         m = draw(st.integers(1, n + extra_m))
-    return {'kind': draw(st.sampled_from(list(kinds))), 'mult': mults, 'support': support,
+    return {'kind': kind, 'real_start': real_start, 'mult': mults, 'support': support,
             'seed': draw(st.integers(0, 2**31 - 1)), 'scale': draw(st.sampled_from([0.1, 1.0, 1.0, 1.0, 5.0])),
             'm': m, 'cond': draw(st.sampled_from([0.0, 0.3, 1.0]))}
